@@ -11,6 +11,13 @@ def run(rep, tier, seed):
     if not a["ok"]:
         raise tlc.MachineryError("leg A: MC_Path violated on the shipped specification\n" + a["out"][-2500:])
     np_, nd = pathdrv.run_path_check(rep, tier, seed, modifiers=False, label="C03")
+    from harness import repotrace
+
+    def fill(i):
+        b = pathdrv.blank(i)
+        b.update(rp=False)
+        return b
+    repotrace.judge(rep, "get_proj", "Trace_Path", fill)
     rep.rule = (f"leg A: all paths of length <= 2 (3 thorough) over a TLA+ part pool x document universe; leg B: {np_} small "
                 f"paths x {nd} documents through the five entry points + seeded document-guided random paths (<= 4 parts, "
                 "arbitrary key/index/value condition trees, documents of depth <= 4 with str/int/float/bool/None keys); "
